@@ -329,6 +329,17 @@ func runCheck(prop, tier string) int {
 	}
 	seed := seedFromEnv()
 	parts := plan(prop, tier)
+	if only := os.Getenv("VERIF_PARTS"); only != "" && parts != nil { // debugging aid: restrict to some parts
+		var keep []Part
+		for _, p := range parts {
+			for _, o := range strings.Split(only, ",") {
+				if p.Name == o {
+					keep = append(keep, p)
+				}
+			}
+		}
+		parts = keep
+	}
 	if parts == nil {
 		fmt.Fprintf(os.Stderr, "no check registered for %s\n", prop)
 		return 2
@@ -798,6 +809,9 @@ func runReplay(path string) int {
 				hit = true
 				if again == 0 {
 					fmt.Printf("replay: violated again: %s\n", oneLine(r.Msg, 600))
+					if os.Getenv("VERIF_REPLAY_WITNESS") != "" {
+						fmt.Println(r.Witness)
+					}
 				}
 			}
 		}
